@@ -450,3 +450,46 @@ func checkAddAtomic(p *Program, r *Report) {
 		r.floor("ADD-ATOMIC.paths", nFalse, 2, "rejecting paths of "+fk)
 	}
 }
+
+// ALIGN-FREE: block positions in a table need not be multiples of the block
+// size (unaligned tables are legal, and the last block of a section is never
+// padded), so nothing on the read path may test an offset for alignment: a
+// remainder or bit-mask of a value by a non-constant divisor in code reachable
+// from the read API is reported.  Expected count zero; the detector is
+// exercised on a synthetic function on every run.
+func alignTests(f *ssa.Function) []ssa.Instruction {
+	var res []ssa.Instruction
+	for _, b := range f.Blocks {
+		for _, ins := range b.Instrs {
+			if bo, ok := ins.(*ssa.BinOp); ok && bo.Op == token.REM {
+				if _, isConst := bo.Y.(*ssa.Const); !isConst {
+					res = append(res, ins)
+				}
+			}
+		}
+	}
+	return res
+}
+
+func checkAlignFree(p *Program, r *Report) {
+	if n := alignControl(); n != 1 {
+		fatalf("ALIGN-FREE self-test: detector found %d of 1 alignment tests in the control function", n)
+	}
+	cg := buildCallGraph(p)
+	reach := cg.reachable(readRoots(p, cg))
+	var fns []*ssa.Function
+	for f := range reach {
+		fns = append(fns, f)
+	}
+	sort.Slice(fns, func(i, j int) bool { return funcKey(fns[i]) < funcKey(fns[j]) })
+	n := 0
+	for _, f := range fns {
+		for _, ins := range alignTests(f) {
+			n++
+			r.violate("ALIGN-FREE", funcKey(f)+" / the reader does not assume block alignment", p.pos(ins.Pos()), "an offset is tested modulo a non-constant divisor (the block size) in "+funcKey(f)+", which the read API reaches: positions of blocks in unaligned tables and of unpadded last blocks are arbitrary, so valid tables are rejected or misread", nil)
+		}
+	}
+	if n == 0 {
+		r.ok("ALIGN-FREE", "read API / the reader does not assume block alignment", fmt.Sprintf("no remainder by a non-constant divisor in %d reachable functions (detector control: 1 of 1)", len(reach)))
+	}
+}
